@@ -4,7 +4,7 @@ import ast
 
 from .. import AnalysisError
 from ..cfg import ALL_KINDS, NORMAL_KINDS, iter_own
-from ..lib import attr_stores, dominated_by, guard_forms, key_of, norm, render, type_is
+from ..lib import collections_from, attr_stores, dominated_by, guard_forms, key_of, norm, render, type_is
 from ..report import describe, rule
 
 P = "C19"
@@ -22,6 +22,17 @@ describe(
 )
 
 ACC = "AsyncCliCommand"
+
+
+
+def _defines(ctx, fn, col, call):
+    """loop form: the object appended is the local bound to `call` in the same loop body."""
+    st = col["at"]
+    if col["form"] != "loop":
+        return False
+    names = {x.id for x in ast.walk(st) if isinstance(x, ast.Name)}
+    stc = ctx.stmt_of(fn, call)
+    return isinstance(stc, ast.Assign) and isinstance(stc.targets[0], ast.Name) and stc.targets[0].id in names and ctx.enclosing(fn, stc, (ast.For,))[:1] == ctx.enclosing(fn, st, (ast.For,))[:1]
 
 
 @rule(P, "C19.1", "T8", "argv = shlex.split(<stored command>); the stored command is generate_command(job, ...)", min_obligations=6)
@@ -60,19 +71,46 @@ def c19_1(ctx, r):
     for s2 in [x for x in ctx.cg.sites_in(gj) if (x.constructs or "").endswith(ACC)]:
         job = ctx.arg_for(s2, init, "job")
         cmd = ctx.arg_for(s2, init, "cmd")
+        if isinstance(cmd, ast.Name):
+            for n in ctx.nodes_of(gj, s2.node):
+                cmd = ctx.guards(gj).expand(cmd, n)
         okc = isinstance(cmd, ast.Call) and isinstance(cmd.func, ast.Attribute) and cmd.func.attr == "generate_command" and cmd.args and ctx.src(cmd.args[0]) == ctx.src(job)
         r.check(okc, "the command stored is generate_command(<the same job>, ...)", key_of(gj, "command source"), s2.loc, f"cmd=`{ctx.src(cmd)[:60] if cmd is not None else None}` for job=`{ctx.src(job) if job is not None else None}`",
                 "Each job is executed as the configured command")
-        loops = ctx.enclosing(gj, s2.node, (ast.For,))
-        r.check(bool(loops) and "self._config.iter_jobs()" in ctx.src(loops[0].iter) and ctx.src(loops[0].target) == ctx.src(job), "one AsyncCliCommand per configured job of the batch", key_of(gj, "job loop"), s2.loc, "the jobs started are not exactly the batch config's jobs")
-        r.check(isinstance(cmd, ast.Call) and ctx.src(cmd.func.value) == "job_exec_class" and any(isinstance(x, ast.Assign) and ctx.src(x.targets[0]) == "job_exec_class" and ctx.src(x.value) == "self._config.job_execution_class(job.extension)" for x in iter_own(gj.node)),
-                "the execution class is the job's extension's", key_of(gj, "extension"), s2.loc, "generate_command is taken from a different extension")
+        def batch_jobs(e):
+            site = ctx.cg.site_of(gj, e) if isinstance(e, ast.Call) else None
+            return site is not None and site.calls_short(ctx.ix, "JobConfiguration.iter_jobs") and not e.args and not e.keywords and render(ctx, gj, e.func.value) == "<JobRunner._config>"
+
+        cols = [c for c in collections_from(ctx, gj, batch_jobs) if c["var"] == ctx.src(job)]
+        inside = [c for c in cols if any(x is s2.node for x in ast.walk(c["at"])) or _defines(ctx, gj, c, s2.node)]
+        okl = bool(inside) and all(not c["conds"] for c in inside)
+        r.check(okl, "one AsyncCliCommand per configured job of the batch, unconditionally", key_of(gj, "job loop"), s2.loc, "the jobs started are not exactly the batch config's jobs (the construction is not in an unfiltered loop / comprehension over self._config.iter_jobs())",
+                "Each job is executed as the configured command")
+        recv = cmd.func.value if isinstance(cmd, ast.Call) and isinstance(cmd.func, ast.Attribute) else None
+        if isinstance(recv, ast.Name):
+            for n in ctx.nodes_of(gj, s2.node):
+                recv = ctx.guards(gj).expand(recv, n)
+        oke = isinstance(recv, ast.Call) and isinstance(recv.func, ast.Attribute) and recv.func.attr == "job_execution_class" and render(ctx, gj, recv.func.value) == "<JobRunner._config>" and len(recv.args) == 1 and ctx.src(recv.args[0]) == f"{ctx.src(job)}.extension"
+        r.check(oke, "the execution class is the job's extension's", key_of(gj, "extension"), s2.loc, f"generate_command is taken from `{ctx.src(recv) if recv is not None else None}`, not from the execution class of this job's extension")
     ge = ctx.fn("GenericCommandExecution.generate_command", "C19.1")
     first = [x for x in ge.node.body if isinstance(x, ast.Assign)]
     r.check(bool(first) and ctx.src(first[0]) == "cmd = job.command", "generic_command: the command starts as job.command", key_of(ge, "base command"), ge.loc(), "generate_command does not start from job.command")
     rets = [x for x in iter_own(ge.node) if isinstance(x, ast.Return)]
     r.check(len(rets) == 1 and ctx.src(rets[0].value) == "cmd", "and that string is returned", key_of(ge, "return"), ge.loc(), "generate_command returns something else")
     cp = ctx.fn("GenericCommandParameters.command", "C19.1")
+    # a wrapper command replaces the configured one only when its feature is switched on
+    for n in ctx.cfg(cp).nodes:
+        if n.kind == "stmt" and isinstance(n.ast, ast.Return) and isinstance(n.ast.value, ast.JoinedStr):
+            lit = "".join(v.value for v in n.ast.value.values if isinstance(v, ast.Constant))
+            forms = guard_forms(ctx, cp, n)
+            if "run-spark-cluster" in lit:
+                ok = any(p and "enabled" in f and " or " not in f for f, p in forms)
+                r.check(ok, "the Spark wrapper is used only when spark_config.enabled", key_of(cp, "spark wrapper although disabled"), cp.loc(n.ast),
+                        f"the job is launched as `{lit.strip()} ...` under {sorted(('' if p else 'not ') + f for f, p in forms)}, without spark_config.enabled having tested true: a job that merely carries a (disabled) "
+                        "spark_config block is not executed as its configured command", "Each job is executed as the configured command")
+            elif "run-multi-node-job" in lit:
+                ok = any(p and "use_multi_node_manager" in f for f, p in forms)
+                r.check(ok, "the multi-node wrapper is used only when use_multi_node_manager", key_of(cp, "multi-node wrapper"), cp.loc(n.ast), f"the multi-node wrapper is used under {sorted(f for f, p in forms)}")
     last = sorted([x for x in iter_own(cp.node) if isinstance(x, ast.Return)], key=lambda x: x.lineno)[-1]
     r.check(ctx.src(last.value) == "self._model.command", "a plain job's command is the configured string, unmodified", key_of(cp, "plain command"), cp.loc(), f"command property returns `{ctx.src(last.value)}` for a plain job")
 
@@ -190,3 +228,29 @@ def c19_5(ctx, r):
     gj = ctx.fn("JobRunner._generate_jobs", "C19.5")
     okj = "self._jobs_output" in ctx.src(gj.node)
     r.check(okj, "generate_command receives the runner's job-outputs directory", key_of(gj, "jobs output"), gj.loc(), "generate_command is not given self._jobs_output")
+
+
+@rule(P, "C19.6", "T6", "only the job object reaps its process: the resource monitor observes job processes, it never waits for / signals them", min_obligations=1)
+def c19_6(ctx, r):
+    """psutil.Process.wait() on a child reaps it; the later Popen.poll() in AsyncCliCommand.is_complete() then gets
+    ECHILD and reports return code 0 - the recorded exit status is no longer the real one."""
+    forbidden = {"wait", "kill", "terminate", "send_signal", "suspend", "resume"}
+    n = 0
+    for f in ctx.ix.functions.values():
+        if not f.module.name.endswith("resource_monitor"):
+            continue
+        n += 1
+        for c in iter_own(f.node):
+            if isinstance(c, ast.Call) and isinstance(c.func, ast.Attribute) and c.func.attr in forbidden:
+                r.bad(key_of(f, f"monitor calls .{c.func.attr}()"), f.loc(c),
+                      f"`{ctx.src(c)}` in the resource monitor waits for / signals a monitored process: job processes are children of the runner, so this consumes the exit status that AsyncCliCommand.is_complete() "
+                      "reads with Popen.poll() - the job is then recorded with return code 0 whatever it exited with", "The recorded result carries ... its real exit code")
+            if isinstance(c, ast.Call) and ctx.src(c.func) in ("os.wait", "os.waitpid", "os.wait3", "os.wait4", "os.kill"):
+                r.bad(key_of(f, f"monitor calls {ctx.src(c.func)}"), f.loc(c), f"`{ctx.src(c)}` in the resource monitor reaps / signals a process", "its real exit code")
+    if n < 5:
+        raise AnalysisError("C19.6", f"only {n} functions found in jade.resource_monitor")
+    r.ok(f"{n} functions of jade.resource_monitor contain no wait / signal call")
+    # positive example (the rule's pattern does match real code): the owner polls its own pipe
+    own = ctx.fn("AsyncCliCommand.is_complete", "C19.6")
+    r.check(any(isinstance(c, ast.Call) and isinstance(c.func, ast.Attribute) and c.func.attr == "poll" and ctx.src(c.func.value) == "self._pipe" for c in iter_own(own.node)), "AsyncCliCommand.is_complete polls its own pipe",
+            key_of(own, "poll"), own.loc(), "AsyncCliCommand.is_complete no longer reads the exit status with self._pipe.poll()")
